@@ -153,19 +153,23 @@ Theorem c03_mirror_publication_all_executions : forall sch,
   RA.final (RA.run (RA.init (mp_store_fence mirror_store_order find_fence_order)) sch) = true ->
   mp_bad (RA.result (RA.run (RA.init (mp_store_fence mirror_store_order find_fence_order)) sch)) = false.
 Proof. exact hc_mirror_publication_find. Qed.
+Print Assumptions c03_mirror_publication_all_executions.
 Theorem c03_tag_publication_emplace_all_executions : forall sch,
   RA.final (RA.run (RA.init (mp_store_fence tag_store_order emplace_fence_order)) sch) = true ->
   mp_bad (RA.result (RA.run (RA.init (mp_store_fence tag_store_order emplace_fence_order)) sch)) = false.
 Proof. exact hc_tag_publication_emplace. Qed.
+Print Assumptions c03_tag_publication_emplace_all_executions.
 Theorem c03_mirror_publication_emplace_all_executions : forall sch,
   RA.final (RA.run (RA.init (mp_store_fence mirror_store_order emplace_fence_order)) sch) = true ->
   mp_bad (RA.result (RA.run (RA.init (mp_store_fence mirror_store_order emplace_fence_order)) sch)) = false.
 Proof. exact hc_mirror_publication_emplace. Qed.
+Print Assumptions c03_mirror_publication_emplace_all_executions.
 (* spelled out: a reader whose group load saw the tag reads the constructed element, and no access raced *)
 Theorem c03_tag_publication_spelled : forall sch,
   let s := RA.run (RA.init (mp_store_fence tag_store_order find_fence_order)) sch in
   RA.final s = true -> oreg (RA.result s) 1 0 = 1 -> oracy (RA.result s) = false /\ oreg (RA.result s) 1 1 = 42.
 Proof. exact hc_tag_publication_spelled. Qed.
+Print Assumptions c03_tag_publication_spelled.
 (* chained tables: next.compare_exchange_strong(null -> node) vs the acquire loads of find (head, node) and emplace *)
 Theorem c03_next_publication_find_head_all_executions : forall sch,
   RA.final (RA.run (RA.init (mp_cas_publish next_cas_order next_load_find_head_order)) sch) = true ->
@@ -176,10 +180,12 @@ Theorem c03_next_publication_find_node_all_executions : forall sch,
   RA.final (RA.run (RA.init (mp_cas_publish next_cas_order next_load_find_node_order)) sch) = true ->
   mp_cas_bad (RA.result (RA.run (RA.init (mp_cas_publish next_cas_order next_load_find_node_order)) sch)) = false.
 Proof. exact hc_next_publication_find_node. Qed.
+Print Assumptions c03_next_publication_find_node_all_executions.
 Theorem c03_next_publication_emplace_all_executions : forall sch,
   RA.final (RA.run (RA.init (mp_cas_publish next_cas_order next_load_emplace_order)) sch) = true ->
   mp_cas_bad (RA.result (RA.run (RA.init (mp_cas_publish next_cas_order next_load_emplace_order)) sch)) = false.
 Proof. exact hc_next_publication_emplace. Qed.
+Print Assumptions c03_next_publication_emplace_all_executions.
 (* the loser of the next CAS goes on in the winner's table *)
 Theorem c03_next_cas_loser_all_executions : has_acquire next_cas_fail_order = true /\ forall sch,
   RA.final (RA.run (RA.init (mp_cas_loser next_cas_order)) sch) = true ->
@@ -189,16 +195,22 @@ Print Assumptions c03_next_cas_loser_all_executions.
 (* each weakened order has a bad execution (complete explorer: false = some outcome is bad) *)
 Theorem c03_tag_relaxed_store_refuted : mp_store_fence_safe Relaxed Acquire = false.
 Proof. exact hc_tag_relaxed_store_refuted. Qed.
+Print Assumptions c03_tag_relaxed_store_refuted.
 Theorem c03_tag_no_acquire_fence_refuted : mp_store_fence_safe Release Relaxed = false.
 Proof. exact hc_tag_no_acquire_fence_refuted. Qed.
+Print Assumptions c03_tag_no_acquire_fence_refuted.
 Theorem c03_next_relaxed_cas_refuted : mp_cas_safe Relaxed Acquire = false.
 Proof. exact hc_next_relaxed_cas_refuted. Qed.
+Print Assumptions c03_next_relaxed_cas_refuted.
 Theorem c03_next_acquire_only_cas_refuted : mp_cas_safe Acquire Acquire = false.
 Proof. exact hc_next_acquire_only_cas_refuted. Qed.
+Print Assumptions c03_next_acquire_only_cas_refuted.
 Theorem c03_next_relaxed_load_refuted : mp_cas_safe AcqRel Relaxed = false.
 Proof. exact hc_next_relaxed_load_refuted. Qed.
+Print Assumptions c03_next_relaxed_load_refuted.
 Theorem c03_next_loser_release_only_refuted : mp_cas_loser_safe Release = false.
 Proof. exact hc_next_loser_release_only_refuted. Qed.
+Print Assumptions c03_next_loser_release_only_refuted.
 
 (* the memory orders the argument relies on are the ones in the source (regenerated site tables): acquire fence after
    the group load, acquire CAS, release stores of the tag, acquire load / acq_rel CAS of the next pointer *)
